@@ -18,9 +18,9 @@ package home
 //vx:callsites (*net/http.ServeMux).HandleFunc github.com/AdguardTeam/AdGuardHome/internal github.com/AdguardTeam/AdGuardHome/internal/home.RegisterAuthHandlers,github.com/AdguardTeam/AdGuardHome/internal/home.httpRegister,github.com/AdguardTeam/AdGuardHome/internal/home.newWebAPI,(*github.com/AdguardTeam/AdGuardHome/internal/home.webAPI).registerInstallHandlers,github.com/AdguardTeam/AdGuardHome/internal/home.registerControlHandlers
 //vx:callsites net/http.Handle github.com/AdguardTeam/AdGuardHome/internal none
 //vx:callsites net/http.HandleFunc github.com/AdguardTeam/AdGuardHome/internal none
-//vx:callsites github.com/AdguardTeam/AdGuardHome/internal/aghhttp.RegisterFunc github.com/AdguardTeam/AdGuardHome/internal (*github.com/AdguardTeam/AdGuardHome/internal/dhcpd.server).registerHandlers,(*github.com/AdguardTeam/AdGuardHome/internal/dnsforward.Server).registerHandlers,(*github.com/AdguardTeam/AdGuardHome/internal/filtering.DNSFilter).RegisterFilteringHandlers,(*github.com/AdguardTeam/AdGuardHome/internal/querylog.queryLog).initWeb,(*github.com/AdguardTeam/AdGuardHome/internal/stats.StatsCtx).initWeb
-//vx:callsites github.com/AdguardTeam/AdGuardHome/internal/home.httpRegister github.com/AdguardTeam/AdGuardHome/internal (*github.com/AdguardTeam/AdGuardHome/internal/home.clientsContainer).registerWebHandlers,(*github.com/AdguardTeam/AdGuardHome/internal/home.tlsManager).registerWebHandlers,github.com/AdguardTeam/AdGuardHome/internal/home.RegisterAuthHandlers,github.com/AdguardTeam/AdGuardHome/internal/home.registerControlHandlers
-//vx:note closed-world scan (regenerated from the SSA of the current tree on every run): every call site of ServeMux.Handle/HandleFunc, http.Handle/HandleFunc, home.httpRegister and of a value of type aghhttp.RegisterFunc under internal/ (internal/next excluded) lies in one of the registration functions this harness executes; a registration added anywhere else fails the check
+//vx:callsites-gap github.com/AdguardTeam/AdGuardHome/internal/aghhttp.RegisterFunc github.com/AdguardTeam/AdGuardHome/internal (*github.com/AdguardTeam/AdGuardHome/internal/dhcpd.server).registerHandlers,(*github.com/AdguardTeam/AdGuardHome/internal/dnsforward.Server).registerHandlers,(*github.com/AdguardTeam/AdGuardHome/internal/filtering.DNSFilter).RegisterFilteringHandlers,(*github.com/AdguardTeam/AdGuardHome/internal/querylog.queryLog).initWeb,(*github.com/AdguardTeam/AdGuardHome/internal/stats.StatsCtx).initWeb
+//vx:callsites-gap github.com/AdguardTeam/AdGuardHome/internal/home.httpRegister github.com/AdguardTeam/AdGuardHome/internal (*github.com/AdguardTeam/AdGuardHome/internal/home.clientsContainer).registerWebHandlers,(*github.com/AdguardTeam/AdGuardHome/internal/home.tlsManager).registerWebHandlers,github.com/AdguardTeam/AdGuardHome/internal/home.RegisterAuthHandlers,github.com/AdguardTeam/AdGuardHome/internal/home.registerControlHandlers
+//vx:note closed-world scan (regenerated from the SSA of the current tree on every run): every call site of ServeMux.Handle/HandleFunc, http.Handle/HandleFunc, home.httpRegister and of a value of type aghhttp.RegisterFunc under internal/ (internal/next excluded) lies in one of the registration functions this harness executes; a direct registration on a mux added anywhere else (it would bypass the central wrapper of home.httpRegister) is reported as a violation, a new caller of home.httpRegister / aghhttp.RegisterFunc (wrapped centrally, but not executed by this harness) makes the run INCONCLUSIVE (coverage gap)
 //vx:entry vxC11Routes reach=served-session,served-basic,refused-403,redirect-login,refused-expired,refused-unknown-cookie,refused-wrong-password,refused-wrong-user,refused-no-credentials,public-login-call,public-login-page,public-asset,public-mobileconfig,public-doh,method-refused,ctype-refused,mutating-served-json,mutating-served-empty,no-admin-open,first-run-redirect,file-server,session-refreshed,pkg-home,pkg-clients,pkg-tls,pkg-dnsforward,pkg-filtering,pkg-stats,pkg-querylog,pkg-dhcpd
 //vx:entry vxC11Install reach=install-forbidden,install-open-first-run,install-method-refused,install-ctype-refused,refused-403,served-session
 //vx:entry vxC11Subtrees reach=public-login-page,public-asset,public-doh,refused-403,redirect-login,served-session,file-server
